@@ -23,6 +23,10 @@ theorem feq_zero_false (x : ℝ) : Num.feq x (0.0 : ℝ) = false ↔ x ≠ 0 := 
 theorem feq_zero' (x : ℝ) : Num.feq x (0 : ℝ) = true ↔ x = 0 := by
   rw [RealNum.feq_eq]
 
+/-- Go `x == 0` with the kernel's own literal `0` -/
+theorem feq_zero_num (x : ℝ) : Num.feq x (@OfNat.ofNat ℝ 0 (Num.instOfNat 0)) = true ↔ x = 0 := by
+  rw [RealNum.feq_eq, RealNum.ofNat_eq, Nat.cast_zero]
+
 /-- the literal `0.0` of the kernels at ℝ -/
 theorem sci_zero : (@OfScientific.ofScientific ℝ Num.toOfScientific 0 true 1) = 0 := by norm_num
 
@@ -33,6 +37,12 @@ macro "c16norm" : tactic =>
 macro "c16norm" "at" h:ident : tactic =>
   `(tactic| simp only [RealNum.ofNat_eq, Nat.cast_zero, Nat.cast_one, Nat.cast_ofNat, gt_iff_lt, ge_iff_le, sci_zero,
       RealNum.zero_eq, RealNum.one_eq, RealNum.gmin_eq, RealNum.gmax_eq, RealNum.pow_eq] at $h:ident)
+
+/-- Two-phase literal normalisation. `RealNum.ofNat_eq` also matches *standard* numerals (the instances unify), so it
+must not be in one simp set with `Nat.cast_ofNat`/`Nat.cast_zero`/`Nat.cast_one` (that loops): first turn every numeral
+into a cast, then every cast back into a standard numeral. -/
+macro "c16lit" : tactic =>
+  `(tactic| ((try simp only [RealNum.ofNat_eq]); (try simp only [Nat.cast_ofNat, Nat.cast_one, Nat.cast_zero])))
 
 /-! ### unit constants (values of the Go constant expressions) -/
 
